@@ -15,7 +15,7 @@ from __future__ import annotations
 
 from onnxscript import ir
 from onnxscript.rewriter._basics import MatchResult
-from onnxscript.rewriter._ir_utils import get_numpy_value
+from onnxscript.rewriter._ir_utils import get_numpy_value, same_dim
 from onnxscript.rewriter._rewrite_rule import RewriteRuleClassBase, RewriteRuleSet
 
 # Binary operators in ONNX standard opset that support numpy-style broadcasting.
@@ -53,7 +53,8 @@ def _compute_broadcast_dim(d1, d2):
         return d2
     if d2 == 1:
         return d1
-    if d1 == d2:
+    # Two unknown (unnamed) dimensions compare equal but need not have the same value.
+    if same_dim(d1, d2):
         return d1
     return None
 
@@ -98,7 +99,8 @@ def _check_dims_sufficient(
     - ``x_d == expand_shape[i]`` - the expand is a no-op at this dim.
     - ``y_d == expand_shape[i]`` - ``y`` already supplies this expansion.
 
-    Comparisons work for both ``int`` and ``SymbolicDim`` values.
+    Comparisons work for both ``int`` and ``SymbolicDim`` values; an unknown
+    (unnamed) dimension is not taken to be equal to anything.
     """
     check_result = MatchResult()
     e_rank = expand_shape.rank()
@@ -118,12 +120,12 @@ def _check_dims_sufficient(
 
         x_idx = x_rank - 1 - rev_i
         x_d = x_shape[x_idx] if x_idx >= 0 else 1
-        if x_d == e_d:
+        if same_dim(x_d, e_d):
             continue  # expand is a no-op at this dimension
 
         y_idx = y_rank - 1 - rev_i
         y_d = y_shape[y_idx] if y_idx >= 0 else 1
-        if y_d == e_d:
+        if same_dim(y_d, e_d):
             continue  # y already supplies this dimension
 
         return check_result.fail(
@@ -235,7 +237,7 @@ def _check_expand_removable(
         if op_output_shape.rank() is not None:
             computed = _compute_broadcast_shape(x_shape, y_shape)
             if computed is not None and len(computed) == op_output_shape.rank():
-                if all(c == a for c, a in zip(computed, op_output_shape)):
+                if all(same_dim(c, a) for c, a in zip(computed, op_output_shape)):
                     return check_result
         return check_result.fail(
             "broadcast(x.shape, y.shape) does not match the binary op output shape."
